@@ -5,8 +5,8 @@ import e2e_common as E
 
 
 def run(ctx):
-    traces = ctx.e2e(E.plan(ctx, [("cid", 10), ("lossy", 4), ("attack", 2)]))
-    ctx.validate_families(traces, "Trace_ConnIds", E.CID_KINDS, only=E.CID_ONLY)
+    traces = ctx.e2e(E.plan(ctx, [("cid", 8), ("cid_expiry", 10), ("lossy", 4), ("attack", 2)]))
+    ctx.validate_families(traces, "Trace_ConnIds", E.CID_KINDS, only=E.CID_ONLY, primary_only=False)
     # routing: with migration / rebinding the data must still arrive at the right connection and unaltered
-    ctx.validate_families({k: v for k, v in traces.items() if k == "cid"}, "Trace_StreamPipe", E.PIPE_KINDS)
+    ctx.validate_families({k: v for k, v in traces.items() if k in ("cid", "cid_expiry")}, "Trace_StreamPipe", E.PIPE_KINDS)
     ctx.assume("wire rules of NEW_CONNECTION_ID / RETIRE_CONNECTION_ID and the peer's active_connection_id_limit are checked on the frames both endpoints send and process; routing is checked through delivery (StreamPipe on migrating connections), the 'RETIRE not on the retired id' rule is not observed (packet DCIDs are not recorded)")
